@@ -150,7 +150,9 @@ def drift_of(sched, recs):
     Returns (compared, mismatches by field)."""
     mm = collections.Counter()
     exps = sched.get("exp") or []
-    steps = [r for r in recs if r.get("kind") == "step"]
+    # observations after settled steps, without the ones a skipped probe step produced (probes are inserted by
+    # the converter, the model knows nothing about them)
+    steps = [r for r in recs if r.get("kind") == "step" and not (r["acts"] and all(a == "SkipProbe" for a in r["acts"]))]
     n = 0
     srvmap = {"running": "running", "ok": "ok", "errAccept": "erraccept", "errMake": "errmake"}
     for e, r in zip(exps, steps):
@@ -165,6 +167,8 @@ def drift_of(sched, recs):
             if ec["told"] != rc["told"]:
                 mm["told"] += 1
             for k, st in enumerate(ec["reqs"]):
+                if ec["closed"] and st in ("started", "handler", "respHead", "respBody"):
+                    continue   # what was in flight on a connection that is gone has no defined stage
                 if k < len(rc["reqs"]) and not stage_matches(st, rc["reqs"][k]):
                     mm["req:" + st] += 1
     return n, mm
@@ -193,14 +197,32 @@ def run_monitor(pid, trace_path, tag):
     return r, viols
 
 
-def key_of(inv, rec):
-    acts = set(rec.get("acts", []))
-    for b in rec.get("batch", []):
-        if b.get("a") == "Connect" and b.get("mode") == "raw" and rec.get("tls"):
-            acts.add("ConnectRaw")
-    notable = sorted(a for a in acts if a in NOTABLE)
+def key_of(inv, rec, prev=None):
+    """Stable identifier of the failing scenario class: the formula, the state of the serving future, and
+    the actions of the failing step that matter for that formula (C07: the signal / a probe; C09: the
+    fault kinds of the step - for a probe, of the step before it).  When the serving future ended without
+    an allowed cause the context is whether a connect had been given up before being accepted (that is
+    what the end is attributed to), not the unrelated actions that happened to share the batch."""
+    def acts_of(r):
+        a = set(r.get("acts", []))
+        for b in r.get("batch", []):
+            if b.get("a") == "Connect" and b.get("mode") == "raw" and r.get("tls"):
+                a.add("ConnectRaw")
+        return a
+    acts = acts_of(rec)
+    if inv.startswith("C07"):
+        rel = {"Signal", "Probe"}
+    else:
+        rel = FAULTS | {"ConnectRaw", "ListenerLost", "MakeFail"}
+        if rec.get("kind") == "probe" and prev is not None:
+            acts = acts_of(prev) | {"Probe"}
+            rel = rel | {"Probe"}
+    notable = sorted(a for a in acts if a in rel)
     where = "+".join(notable) if notable else ("quiesce" if rec.get("kind") in ("quiesce", "final") else "plain")
-    return f"{inv}@{where}"
+    if inv in ("C09_SrvStable", "C09_EndsOnlyOnAllowed") and rec.get("srv") != "running":
+        # the serving future ended without an allowed cause: the class is (result, was a connect given up)
+        where = "cancelled-connect" if (rec.get("cancelled", 0) > 0 and rec.get("srv") == "erraccept") else "no-allowed-cause"
+    return f"{inv}@{rec.get('srv')}/{where}"
 
 
 def summarize_steps(steps):
@@ -246,7 +268,11 @@ def analyse(pid, recs, viols, verdict):
     for sid, (inv, l) in sorted(first.items(), key=lambda x: x[1][1]):
         rec = dict(recs[l - 1])
         rec["tls"] = scheds[sid]["reset"].get("tls")
-        k = key_of(inv, rec)
+        prev = None
+        if l >= 2 and recs[l - 2]["e"] == "Obs":
+            prev = dict(recs[l - 2])
+            prev["tls"] = rec["tls"]
+        k = key_of(inv, rec, prev)
         by_key.setdefault(k, []).append((sid, inv, l))
     for k, lst in by_key.items():
         sid, inv, l = lst[0]
@@ -307,20 +333,28 @@ def run(pid, tier, seed, t0):
     certs = ensure_certs(pid)
 
     # 1. model checking ------------------------------------------------------------------------
-    mc_cfg = "Server_thorough.cfg" if thorough else "Server_quick.cfg"
-    mc = vlib.tlc("MC_Server", mc_cfg, pid, workers=8, coverage=True, timeout=3000 if thorough else 600)
-    if mc.violated or not mc.finished:
-        vlib.log(mc.out[-4000:])
-        raise vlib.ToolError(f"Server.tla ({mc_cfg}) does not satisfy {mc.violated}: the specification needs attention "
-                             "(a model counterexample is not a verdict on the crate)")
+    # exhaustive configurations of the tier (the first one runs with -coverage)
+    model_cfgs = [f"Server_quick_{pid}.cfg"]
+    if thorough:
+        model_cfgs += ["Server_thorough_2conn.cfg", "Server_thorough.cfg", "Server_thorough_faults.cfg"]
+    mc_cfg = model_cfgs[0]
+    extra_models = {}
+    mc = None
+    tot_states = tot_trans = 0
+    for n, cf in enumerate(model_cfgs):
+        r = vlib.tlc("MC_Server", cf, pid, workers=8, coverage=(n == 0), timeout=3000 if thorough else 900)
+        if r.violated or not r.finished:
+            vlib.log(r.out[-4000:])
+            raise vlib.ToolError(f"Server.tla ({cf}) does not satisfy {r.violated}: the specification needs attention "
+                                 "(a model counterexample is not a verdict on the crate)")
+        tot_states += r.distinct
+        tot_trans += r.generated
+        if n == 0:
+            mc = r
+        else:
+            extra_models[cf] = {"states": r.distinct, "transitions": r.generated, "depth": r.depth}
     cov = mc.coverage()
     never = sorted(a for a, (d, t) in cov.items() if t == 0)
-    extra_models = {}
-    if thorough:
-        q = vlib.tlc("MC_Server", "Server_quick.cfg", pid, workers=8, timeout=900)
-        if q.violated or not q.finished:
-            raise vlib.ToolError(f"Server.tla (Server_quick.cfg) does not satisfy {q.violated}")
-        extra_models["Server_quick.cfg"] = {"states": q.distinct, "transitions": q.generated, "depth": q.depth}
     live = vlib.tlc("MC_Server", "Server_live.cfg", pid, workers=8, timeout=900)
     if live.violated or not live.finished:
         vlib.log(live.out[-4000:])
@@ -334,7 +368,7 @@ def run(pid, tier, seed, t0):
         raise vlib.ToolError("as-built demonstration config did not produce the expected model counterexample")
 
     # 2. behaviours from the model -------------------------------------------------------------
-    nsim = (1500, 500) if thorough else (350, 120)
+    nsim = (400, 150) if thorough else (70, 25)   # per TLC worker (4 workers)
     scheds = []
     seen = set()
     for cfgname, num, src in (("Server_gen.cfg", nsim[0], "p"), ("Server_gen_tls.cfg", nsim[1], "t")):
@@ -361,7 +395,7 @@ def run(pid, tier, seed, t0):
         traces.append((tag, p, json.loads(o.strip().splitlines()[-1])))
 
     harness("model", ["--in", model_in])
-    nwalk = (3000, 1000) if thorough else (450, 150)
+    nwalk = (3000, 1000) if thorough else (300, 100)
     harness("walk", ["--walk", "--profile", prof, "--seed", seed, "--num", nwalk[0], "--len", 24, "--protos", "h1,auto,h2"])
     harness("walk_tls", ["--walk", "--profile", prof, "--seed", seed + 1, "--num", nwalk[1], "--len", 22, "--tls", 1, "--protos", "h1,auto"])
     if thorough:
@@ -403,10 +437,14 @@ def run(pid, tier, seed, t0):
                         "final_srv": sched_map[sid]["recs"][-1]["srv"] if sched_map[sid]["recs"] else None})
     code, unlisted = verdict.finish()
     coverage = {
-        "states": mc.distinct, "transitions": mc.generated, "depth": mc.depth, "exhaustive": True,
-        "model_config": mc_cfg, "model_properties": MODEL_PROPS[pid], "other_model_runs": extra_models,
+        "states": tot_states, "transitions": tot_trans, "depth": mc.depth, "exhaustive": True,
+        "model_config_with_coverage": mc_cfg, "model_config_states": mc.distinct, "model_configs": model_cfgs, "model_properties": MODEL_PROPS[pid], "other_model_runs": extra_models,
         "tlc_coverage": {a: {"distinct": d, "taken": t} for a, (d, t) in sorted(cov.items())},
         "tlc_actions_never_taken": never,
+        "tlc_never_taken_note": "expected by configuration: Settled belongs to the generation configs only; the C07 quick "
+                                "configuration has MaxFaults=0 (no CancelConnect/Disconnect/Trunc/Garbage/ConnFails), the C09 quick "
+                                "configuration has an ungated make-service (no Make/MakeOpen); each of those actions is taken in "
+                                "the other property's quick configuration (coverage is measured on the quick configuration only)",
         "traces_validated_against_impl": len(sched_map),
         "trace_records": len(recs) - len(sched_map),
         "monitor_invariants": INV[pid],
@@ -430,7 +468,7 @@ def run(pid, tier, seed, t0):
     vlib.write_evidence(pid, tier, seed, "model_checking", coverage, ASSUMPTIONS, time.time() - t0, unlisted)
     if mism:
         vlib.log(f"DRIFT property={pid}: {dict(mism)} over {compared} compared observations")
-    vlib.log(f"[{pid}] model {mc.distinct} states; {len(sched_map)} schedules / {len(recs)} records on the real server; "
+    vlib.log(f"[{pid}] model {tot_states} states; {len(sched_map)} schedules / {len(recs)} records on the real server; "
              f"{len(first)} failing schedule(s), {len(by_key)} class(es); {time.time()-t0:.0f}s")
     return code
 
